@@ -250,7 +250,8 @@ theorem bits_ne_nil_of_length {B : Bits} (h : ¬ B.length = 0) : B ≠ [] := by
 
 /-- `left + right` with a LEFT-padded left operand -/
 theorem add_left (A B : Bits) (sb : Pad) (hB : ¬ B.length = 0) :
-    Buf.add (Buf.ofABuf ⟨A, .left⟩) (Buf.ofABuf ⟨B, sb⟩) = .ok (Buf.ofABuf ⟨A ++ B, .left⟩, Buf.ofABuf ⟨A, .left⟩, Buf.ofABuf ⟨B, sb⟩) := by
+    Buf.add (Buf.ofABuf ⟨A, .left⟩) (Buf.ofABuf ⟨B, sb⟩) = .ok (Buf.ofABuf ⟨A ++ B, .left⟩, Buf.ofABuf ⟨A, .left⟩,
+      Buf.ofABuf ⟨B, if Gen.addPadInplace1 = true ∧ padLenOf B.length ≠ 0 then .left else sb⟩) := by
   have hBn := bits_ne_nil_of_length hB
   have hpa := padLen_lt A.length
   have hpb := padLen_lt B.length
@@ -261,20 +262,22 @@ theorem add_left (A B : Bits) (sb : Pad) (hB : ¬ B.length = 0) :
   have hcla := ofABuf_content_length ⟨A, .left⟩
   have hbla := byteLen_eq A.length
   simp only [Buf.ofABuf, ABuf.length] at hcba hcbb hcla
+  generalize hside : (if Gen.addPadInplace1 = true ∧ padLenOf B.length ≠ 0 then Pad.left else sb) = sb'
   unfold Buf.add
   simp only [Buf.ofABuf, ABuf.length, hB, if_false]
   by_cases hp0 : padLenOf B.length = 0
-  · simp only [hp0, if_true, bind, Except.bind, pure, Except.pure]
+  · have : sb = sb' := by rw [← hside]; simp [hp0]
+    subst this
+    simp only [hp0, if_true, bind, Except.bind, pure, Except.pure]
     rw [new_spec _ _ _ (allBytes_append haa hab)]
     have hbb : ABuf.bytesBits (⟨B, sb⟩ : ABuf).content = B := by
       rw [hcbb, hp0]; cases sb <;> simp [Bits.zeros]
     rw [ofBytes_left_of _ (Bits.zeros (padLenOf A.length)) (A ++ B) _ (by simp) (by rw [bytesBits_append, hcba, hbb, List.append_assoc])]
     rfl
   · simp only [hp0, if_false, bind, Except.bind, pure, Except.pure]
-    have hps := pad_spec ⟨B, sb⟩ .left Gen.addPadInplace1
-    have hg : Gen.addPadInplace1 = false := rfl
-    rw [hg] at hps ⊢
-    simp only [Buf.ofABuf, ABuf.length, Bool.false_eq_true, if_false] at hps
+    have hps : (Buf.ofABuf ⟨B, sb⟩).pad .left Gen.addPadInplace1 = .ok (Buf.ofABuf ⟨B, .left⟩, Buf.ofABuf ⟨B, sb'⟩) := by
+      rw [pad_spec, ← hside]; generalize Gen.addPadInplace1 = ip; cases ip <;> simp [hp0]
+    simp only [Buf.ofABuf, ABuf.length] at hps
     rw [hps]
     simp only
     obtain ⟨out, cout, l1, l2, l3, l4, l5⟩ := shrCarry0_spec (padLenOf B.length) (by omega) _ haa
@@ -334,7 +337,8 @@ theorem merge_right_carry (A BZ : Bits) (nc0 : List Nat) (cb : Nat) (hpa : padLe
 
 /-- `left + right` with a RIGHT-padded left operand -/
 theorem add_right (A B : Bits) (sb : Pad) (hB : ¬ B.length = 0) :
-    Buf.add (Buf.ofABuf ⟨A, .right⟩) (Buf.ofABuf ⟨B, sb⟩) = .ok (Buf.ofABuf ⟨A ++ B, .right⟩, Buf.ofABuf ⟨A, .right⟩, Buf.ofABuf ⟨B, sb⟩) := by
+    Buf.add (Buf.ofABuf ⟨A, .right⟩) (Buf.ofABuf ⟨B, sb⟩) = .ok (Buf.ofABuf ⟨A ++ B, .right⟩, Buf.ofABuf ⟨A, .right⟩,
+      Buf.ofABuf ⟨B, if Gen.addPadInplace2 = true ∧ padLenOf A.length = 0 ∧ ¬ (padLenOf B.length = 0 ∨ sb = .right) then .right else sb⟩) := by
   have hBn := bits_ne_nil_of_length hB
   have hpa := padLen_lt A.length
   have hpb := padLen_lt B.length
@@ -344,13 +348,16 @@ theorem add_right (A B : Bits) (sb : Pad) (hB : ¬ B.length = 0) :
   have hab := allBytes_content ⟨B, sb⟩
   have hclb := content_length_pos B sb hB
   simp only [Buf.ofABuf, ABuf.length] at hcba hcbb
+  generalize hside : (if Gen.addPadInplace2 = true ∧ padLenOf A.length = 0 ∧ ¬ (padLenOf B.length = 0 ∨ sb = .right) then Pad.right else sb) = sb'
   unfold Buf.add
   simp only [Buf.ofABuf, ABuf.length, hB, if_false]
   by_cases hpa0 : padLenOf A.length = 0
   · simp only [hpa0, if_true]
     rw [hpa0] at hcba
     by_cases hc : padLenOf B.length = 0 ∨ sb = .right
-    · simp only [hc, if_true, bind, Except.bind, pure, Except.pure]
+    · have : sb = sb' := by rw [← hside]; simp [hc]
+      subst this
+      simp only [hc, if_true, bind, Except.bind, pure, Except.pure]
       rw [new_spec _ _ _ (allBytes_append haa hab)]
       have : ∃ Z, ABuf.bytesBits (⟨B, sb⟩ : ABuf).content = B ++ Z := by
         rw [hcbb]
@@ -361,10 +368,9 @@ theorem add_right (A B : Bits) (sb : Pad) (hB : ¬ B.length = 0) :
       rw [ofBytes_right_of _ (A ++ B) Z _ (by simp) (by rw [bytesBits_append, hcba, hZ]; simp [Bits.zeros])]
       rfl
     · simp only [hc, if_false, bind, Except.bind, pure, Except.pure]
-      have hps := pad_spec ⟨B, sb⟩ .right Gen.addPadInplace2
-      have hg : Gen.addPadInplace2 = false := rfl
-      rw [hg] at hps ⊢
-      simp only [Buf.ofABuf, ABuf.length, Bool.false_eq_true, if_false] at hps
+      have hps : (Buf.ofABuf ⟨B, sb⟩).pad .right Gen.addPadInplace2 = .ok (Buf.ofABuf ⟨B, .right⟩, Buf.ofABuf ⟨B, sb'⟩) := by
+        rw [pad_spec, ← hside]; generalize Gen.addPadInplace2 = ip; cases ip <;> simp [hpa0, hc]
+      simp only [Buf.ofABuf, ABuf.length] at hps
       rw [hps]
       simp only
       rw [new_spec _ _ _ (allBytes_append haa (allBytes_content _))]
@@ -372,7 +378,9 @@ theorem add_right (A B : Bits) (sb : Pad) (hB : ¬ B.length = 0) :
       simp only at hbr
       rw [ofBytes_right_of _ (A ++ B) (Bits.zeros (padLenOf B.length)) _ (by simp) (by rw [bytesBits_append, hcba, hbr]; simp [Bits.zeros])]
       rfl
-  · simp only [hpa0, if_false]
+  · have : sb = sb' := by rw [← hside]; simp [hpa0]
+    subst this
+    simp only [hpa0, if_false]
     have hmod : A.length % 8 = 8 - padLenOf A.length := by
       have := padLen_add A.length; omega
     cases sb with
@@ -433,9 +441,20 @@ theorem add_right (A B : Bits) (sb : Pad) (hB : ¬ B.length = 0) :
       rw [new_spec _ _ _ m4, ofBytes_right_of _ (A ++ B) _ _ (by simp) (by rw [m5, List.append_assoc])]
       rfl
 
-/-- `a + b` on canonical Buffers: the bits of `a` followed by the bits of `b`, on the side of `a`; both operands
-    unchanged (all nine branches of `__add__`) -/
-theorem add_spec (a b : ABuf) : Buf.add (Buf.ofABuf a) (Buf.ofABuf b) = .ok (Buf.ofABuf (a.add b), Buf.ofABuf a, Buf.ofABuf b) := by
+/-- what the right operand of `a + b` is afterwards: itself, unless one of the two internal re-paddings is done in
+    place (regenerated flags; both `False` in the library, see `C16_pure_add`) — then the same bits on the other
+    side -/
+def addAfter (a b : ABuf) : ABuf :=
+  ⟨b.bits,
+    if b.bits.length = 0 then b.side
+    else match a.side with
+      | .left => if Gen.addPadInplace1 = true ∧ padLenOf b.bits.length ≠ 0 then .left else b.side
+      | .right => if Gen.addPadInplace2 = true ∧ padLenOf a.bits.length = 0 ∧ ¬ (padLenOf b.bits.length = 0 ∨ b.side = .right)
+                  then .right else b.side⟩
+
+/-- `a + b` on canonical Buffers: the bits of `a` followed by the bits of `b`, on the side of `a` (all nine
+    branches of `__add__`); `a` unchanged, `b` as `addAfter` says -/
+theorem add_spec (a b : ABuf) : Buf.add (Buf.ofABuf a) (Buf.ofABuf b) = .ok (Buf.ofABuf (a.add b), Buf.ofABuf a, Buf.ofABuf (addAfter a b)) := by
   obtain ⟨A, sa⟩ := a
   obtain ⟨B, sb⟩ := b
   by_cases hB : B.length = 0
@@ -443,10 +462,14 @@ theorem add_spec (a b : ABuf) : Buf.add (Buf.ofABuf a) (Buf.ofABuf b) = .ok (Buf
     subst hBn
     unfold Buf.add
     have : (Buf.ofABuf ⟨[], sb⟩).length = 0 := rfl
-    simp only [this, if_true, bind, Except.bind, copy_spec, pure, Except.pure, ABuf.add, List.append_nil]
+    simp only [this, if_true, bind, Except.bind, copy_spec, pure, Except.pure, ABuf.add, List.append_nil, addAfter, List.length_nil]
   · cases sa
-    · exact add_left A B sb hB
-    · exact add_right A B sb hB
+    · simpa only [addAfter, ABuf.add, hB, if_false] using add_left A B sb hB
+    · simpa only [addAfter, ABuf.add, hB, if_false] using add_right A B sb hB
+
+/-- the concatenation alone -/
+theorem add_val (a b : ABuf) : (Buf.add (Buf.ofABuf a) (Buf.ofABuf b)).map (·.1) = .ok (Buf.ofABuf (a.add b)) := by
+  rw [add_spec]; rfl
 
 end Schc
 
